@@ -14,7 +14,7 @@ Proved pieces:
      disagree), unbounded N, both row orders (re-discharged here; also part of C12)
   T  convert_series_to_internal_type on adversarial values: the conversion either preserves
      every value exactly or raises ValueError -- float->int at magnitudes 1 .. 2^52 with
-     fractional parts, {0,1}->bool, object columns, int->float (bounded enumeration)
+     fractional parts, integral floats at and beyond +-2^63, inf, NaN, {0,1}->bool, object columns, int->float (bounded enumeration)
 """
 from __future__ import annotations
 
@@ -164,6 +164,21 @@ def conversion_part(rep):
             n += 1
             if err != "ValueError":
                 bad.append(f"float column {[repr(x) for x in s.tolist()]} converted to int {None if out is None else out.tolist()} instead of ValueError ({v!r} is not an integer; truncation or rounding changes it)")
+    # integral floats outside the int64 range, infinities, NaN: the cast wraps / is undefined -> must be refused;
+    # integral floats inside the range (2^53 .. 2^62, -2^63) convert exactly
+    for v, ok in ((2.0**63, False), (1e19, False), (-3e19, False), (-(2.0**63) * 2, False), (1e300, False), (float("inf"), False), (float("-inf"), False), (float("nan"), False),
+                  (2.0**53, True), (2.0**62, True), (-(2.0**63), True), (-(2.0**62), True)):
+        for pos in (0, 2):
+            vals = [0.0, 1.0, 3.0]
+            vals[pos] = v
+            s = pd.Series(vals)
+            out, err = attempt(s, int)
+            n += 1
+            if ok:
+                if err or [int(x) for x in out.tolist()] != [int(x) for x in vals] or out.dtype.kind != "i":
+                    bad.append(f"float {vals} -> int: expected a lossless conversion, got {err or out.tolist()}")
+            elif err != "ValueError":
+                bad.append(f"float column {vals} converted to int {None if out is None else out.tolist()} instead of ValueError ({v!r} has no int64 value)")
     for frac in (0.5, 0.01, float("nan"), 1e-12, 1 - 1e-12):
         s = pd.Series([0.0, frac, 1.0])
         out, err = attempt(s, bool)
